@@ -61,8 +61,9 @@ namespace gs
         // the bytes currently stored, through the same public observers (cstr()/size(); line.buf/line.len)
         virtual std::vector<uint8_t> stored_bytes() = 0;
         // re-initialise the receiver on the same buffer through the library's own set-up call
-        // (configurable: init(buf,len) / setbuf(buf,len), alternating; legacy: zeroed object + gstuff_autorecv_setbuf_v1)
-        virtual void reinit() = 0;
+        // variant 0: configurable init(buf,len);  variant 1: configurable setbuf(buf,len);
+        // legacy (either variant): gstuff_autorecv_setbuf_v1
+        virtual void reinit(int variant = 0) = 0;
         // the receiver's contribution to a BFS state key (C05 only); what it is made of depends on key_mode()
         virtual std::string implkey() = 0;
     };
